@@ -316,6 +316,7 @@ func (u *Unit) verifyFunction(known []KnownFinding, prop string) {
 	entry := st.clone()
 	reach := tTrue
 	u.runFunction(fr, args, st, reach)
+	u.vacuityPos = len(u.lines) // before the postconditions are assumed
 	// postconditions at every return
 	var resNames []string
 	for i := 0; i < fn.Signature.Results().Len(); i++ {
@@ -478,6 +479,19 @@ func (u *Unit) queryText(o *Obligation, extra []string, goal string) string {
 func discharge(u *Unit, o *Obligation, workDir string, timeout int, known []KnownFinding, prop string) {
 	goal := "(assert " + and(o.Guard, not(o.Formula)).S + ")"
 	waitAll := *flagTier == "thorough"
+	for _, k := range known {
+		if k.Obligation == o.Name && k.Property == prop && k.Fixed == "" && k.Region == "" {
+			// listed finding without a region: one attempt, no fallbacks (it is expected to fail)
+			q := u.queryText(o, nil, goal)
+			o.Result = runQuery(workDir, o.Name, q, timeout, false)
+			if o.Result.Status == "unsat" {
+				o.Status = "discharged"
+			} else {
+				o.Status = "undecided"
+			}
+			return
+		}
+	}
 	if region, ok := u.regions[o.Name]; ok {
 		// known finding with a failing region: the obligation must hold outside the region
 		q := u.queryText(o, []string{"(assert " + not(region).S + ")"}, goal)
@@ -561,7 +575,11 @@ func vacuityProbe(u *Unit, workDir string, timeout int) string {
 		}
 		return "ok"
 	}
-	o := &Obligation{Name: u.FnName + "#vacuity", Pos: len(u.lines)}
+	pos := len(u.lines)
+	if u.vacuityPos > 0 {
+		pos = u.vacuityPos
+	}
+	o := &Obligation{Name: u.FnName + "#vacuity", Pos: pos}
 	q := u.queryText(o, nil, "(assert "+or(u.retReach...).S+")")
 	r := runQuery(workDir, o.Name, q, timeout, false)
 	switch r.Status {
